@@ -27,7 +27,7 @@ func init() {
 			return map[string]int{"c11.small": 64 * len(c11Prefixes) * len(c11Delims) * len(c11Max) * 2}
 		},
 	})
-	expectedProbes["C11"] = []string{"c11.three_pages", "c11.collapsed_prefix", "c11.prefix_only_page", "c11.missing_bucket_404", "c11.bad_token_400", "c11.bad_maxresults_400", "c11.multi_char_delimiter"}
+	expectedProbes["C11"] = []string{"c11.three_pages", "c11.collapsed_prefix", "c11.prefix_only_page", "c11.missing_bucket_404", "c11.bad_token_400", "c11.bad_maxresults_400", "c11.multi_char_delimiter", "c11.more_objects_than_default_page"}
 }
 
 type listEntry struct {
@@ -75,6 +75,9 @@ func checkListing(r *Run, w *GCSWorld, m *gModel, bucket string, names []string,
 		q.Set("maxResults", fmt.Sprint(maxResults))
 	}
 	desc := fmt.Sprintf("list %s names=%q prefix=%q delimiter=%q maxResults=%d (store %s)", bucket, names, prefix, delim, maxResults, w.Store)
+	if len(names) > 60 {
+		desc = fmt.Sprintf("list %s (%d names: %q ... %q) prefix=%q delimiter=%q maxResults=%d (store %s)", bucket, len(names), names[:3], names[len(names)-3:], prefix, delim, maxResults, w.Store)
+	}
 	fail := func(kind, f string, a ...interface{}) bool {
 		wit := ""
 		if witness != nil {
@@ -262,6 +265,38 @@ func runC11(r *Run) {
 		return b, true
 	}
 	r.Mix(store)
+	if r.Index == 10 || r.Index == 11 || (r.Tier == "thorough" && r.Index%5000 < 2) {
+		// one run per store and batch: a bucket holding more objects than the default page
+		// size (1000), flat names and 40 "directories", listed with and without maxResults
+		dl := record(r.T.S("prog.0"), 8)
+		var names []string
+		nFlat := 1001 + dl.n(300)
+		for i := 0; i < nFlat; i++ {
+			names = append(names, fmt.Sprintf("k%05d", i*7))
+		}
+		for i := 0; i < 40; i++ {
+			for j := 0; j < 1+i%4; j++ {
+				names = append(names, fmt.Sprintf("p%02d/f%d", i, j))
+			}
+		}
+		sort.Strings(names)
+		bucket, ok := mkBucket(names)
+		if !ok {
+			return
+		}
+		r.Probe("c11.more_objects_than_default_page")
+		for _, q := range []struct {
+			prefix, delim string
+			mr            int
+		}{{"", "", 0}, {"", "/", 0}, {"k0", "", 0}, {"", "", 1000}, {"", "/", 999}, {"k", "", 400}, {"p", "/", 7}, {"", "", 1500}} {
+			r.Mix(fmt.Sprintf("L%q.%q.%d", q.prefix, q.delim, q.mr))
+			if !checkListing(r, w, m, bucket, names, q.prefix, q.delim, q.mr, nil) {
+				return
+			}
+		}
+		r.Sample = map[string]interface{}{"mode": "large-bucket", "store": store, "objects": len(names)}
+		return
+	}
 	// part 1: the small universe, by permutation
 	nSmall := 64 * len(c11Prefixes) * len(c11Delims) * len(c11Max)
 	perm := newPerm(nSmall, r.Master+11)
